@@ -244,13 +244,17 @@ func (p *ProjectRunner) initProcessStates() {
 }
 
 func (p *ProjectRunner) initProcessLogs() {
+	p.logsMutex.Lock()
 	p.processLogs = make(map[string]*pclog.ProcessLogBuffer)
+	p.logsMutex.Unlock()
 	for _, proc := range p.project.Processes {
 		p.initProcessLog(proc.ReplicaName)
 	}
 }
 
 func (p *ProjectRunner) initProcessLog(name string) {
+	p.logsMutex.Lock()
+	defer p.logsMutex.Unlock()
 	p.processLogs[name] = pclog.NewLogBuffer(p.project.LogLength)
 }
 
@@ -645,6 +649,8 @@ func (p *ProjectRunner) GetHostName() (string, error) {
 }
 
 func (p *ProjectRunner) getProcessLog(name string) (*pclog.ProcessLogBuffer, error) {
+	p.logsMutex.Lock()
+	defer p.logsMutex.Unlock()
 	if procLogs, ok := p.processLogs[name]; ok {
 		return procLogs, nil
 	}
@@ -790,7 +796,9 @@ func (p *ProjectRunner) renameProcess(name string, newName string) {
 	}
 	logs := p.removeProcessLogs(name)
 	if logs != nil {
+		p.logsMutex.Lock()
 		p.processLogs[newName] = logs
+		p.logsMutex.Unlock()
 	}
 	state, err := p.GetProcessState(name)
 	if err == nil {
